@@ -13,6 +13,7 @@ import (
 	"github.com/ajitpratap0/GoSQLX/pkg/models"
 	"github.com/ajitpratap0/GoSQLX/pkg/sql/ast"
 	"github.com/ajitpratap0/GoSQLX/pkg/sql/tokenizer"
+	"github.com/ajitpratap0/GoSQLX/pkg/transform"
 )
 
 type poolHistResult struct {
@@ -120,9 +121,42 @@ type heldTokens struct {
 	snap     string
 }
 
+// transform rules built once and used for every history (a rule value may be applied to any number of statements)
+var holdRules = []transform.Rule{
+	transform.AddWhereFromSQL("tenant_id = 42"),
+	transform.AddWhereFromSQL("deleted_at IS NULL AND region IN ('eu', 'us')"),
+	transform.AddJoinFromSQL("JOIN zz ON zz.id = 1"),
+	transform.AddOrderBy("created_at", true),
+	transform.SetLimit(10),
+}
+
 func runHold(seed uint64, n int, sqls []string) holdResult {
 	r := &rng{s: seed}
 	res := holdResult{}
+	// deterministic probe: one rule value applied to two trees, one of them released or transformed again in place:
+	// the other, still held, must read the same
+	for ri, rule := range holdRules {
+		for _, pair := range [][2]string{{"SELECT id FROM orders", "SELECT name FROM users"}, {"SELECT id FROM orders WHERE total > 10", "SELECT name FROM users WHERE active = 1 ORDER BY name"}} {
+			t1, e1 := gosqlx.Parse(pair[0])
+			t2, e2 := gosqlx.Parse(pair[1])
+			if e1 != nil || e2 != nil {
+				continue
+			}
+			for _, st := range t1.Statements {
+				_ = transform.Apply(st, rule)
+			}
+			for _, st := range t2.Statements {
+				_ = transform.Apply(st, rule)
+			}
+			before := dump(t2)
+			res.Checks++
+			ast.ReleaseAST(t1)
+			if dump(t2) != before {
+				res.Changed = append(res.Changed, fmt.Sprintf("transform rule %d applied to two trees: releasing the first changed the second (%q)", ri, pair[1]))
+			}
+			ast.ReleaseAST(t2)
+		}
+	}
 	for h := 0; h < n; h++ {
 		var trees []*heldTree
 		var toks []*heldTokens
@@ -147,7 +181,18 @@ func runHold(seed uint64, n int, sqls []string) holdResult {
 		for s := 0; s < steps; s++ {
 			res.Ops++
 			sql := sqls[r.intn(len(sqls))]
-			switch r.intn(7) {
+			switch r.intn(8) {
+			case 7: // a transform rule that lives for the whole run is applied to a held tree: the tree changes (new
+				// snapshot), and what the rule grafted into it belongs to that tree alone from then on
+				if len(trees) > 0 {
+					i := r.intn(len(trees))
+					rule := holdRules[r.intn(len(holdRules))]
+					for _, st := range trees[i].tree.Statements {
+						_ = transform.Apply(st, rule)
+					}
+					trees[i].snap = dump(trees[i].tree)
+					trace = append(trace, "TransformHeld")
+				}
 			case 0, 1: // parse and hold
 				tr, err := gosqlx.Parse(sql)
 				if err == nil && tr != nil {
